@@ -5,7 +5,7 @@
    what is stored afterwards). *)
 From stdpp Require Import gmap list.
 From Coq Require Import NArith Lia.
-From G Require Import Arith Monad Types Inv Raw RawProofs Map MapProofs IterProofs SetProofs Ledger.
+From G Require Import Arith Monad Types Inv Raw RawProofs Map MapProofs IterProofs CloneProofs SetProofs Ledger.
 Local Open Scope N_scope.
 
 Lemma map_to_list_disj_union {A} (m1 m2 : gmap N A) :
@@ -270,4 +270,90 @@ Proof.
   unfold kidsE. rewrite Hel, Hk, kids3_elem3. cbn [map]. split; [reflexivity|]. rewrite <- Hp. apply drain_star_aux.
 Qed.
 
+(* clone: the new map holds a copy of every key object of the source; nothing is dropped *)
+Lemma rt_clone_star s r s' :
+  Inv R ES (s_rt s) -> rt_clone c s = Ok r s' ->
+  dks s' = dks s /\ Inv R ES r /\ kidsE r ≡ₚ kidsE (s_rt s).
+Proof.
+  intros HI E. pose proof (nd_rt_clone c s (Inv_lite _ _ _ HI)) as Hd. unfold wpp in Hd. rewrite E in Hd.
+  destruct Hd as [(Hk & _ & _) _].
+  pose proof (rt_clone_spec c (fun r' _ => Inv R ES r' /\ rt_abs r' = rt_abs (s_rt s)) (fun _ _ => True) s HI) as Hs.
+  unfold wp in Hs. rewrite E in Hs. destruct Hs as [HI' Habs]; [intros r0 s0 _ H1 H2 _; auto|auto|].
+  split; [exact Hk|]. split; [exact HI'|]. rewrite (kidsE_abs _ HI'), (kidsE_abs _ HI), Habs. reflexivity.
+Qed.
+(* clone_from: every key object the destination held is dropped, and it now holds a copy of every
+   key object of the source *)
+Lemma rt_clone_from_star src s u s' :
+  Inv R ES (s_rt s) -> Inv R ES src -> rt_clone_from c src s = Ok u s' ->
+  dks s' ++ kidsE (s_rt s') ≡ₚ kidsE src ++ dks s ++ kidsE (s_rt s).
+Proof.
+  intros HI HIs E.
+  pose proof (rt_clone_from_ledger c src s (Inv_lite _ _ _ HI) (proj1 (Inv_lite R ES (set_rt src s) HIs))) as Hd.
+  unfold wpp in Hd. rewrite E in Hd. destruct Hd as [Hk _].
+  pose proof (rt_clone_from_spec c src (fun _ s1 => Inv R ES (s_rt s1) /\ rt_abs (s_rt s1) = rt_abs src) (fun _ _ => True) s HI HIs) as Hs.
+  unfold wp in Hs. rewrite E in Hs. destruct Hs as [HI' Habs]; [intros s0 H1 H2 _; auto|auto|].
+  rewrite Hk. fold (kidsE (s_rt s)). rewrite (kidsE_abs _ HI'), Habs, <- (kidsE_abs _ HIs).
+  rewrite (Permutation_app_comm (kidsE (s_rt s)) (dks s)). apply Permutation_app_comm.
+Qed.
+(* read-only calls: ==, raw_entry().from_*(), Serialize *)
+Lemma rp_star {A} (P : A -> Prop) (m : M' A) s a s' :
+  rp P m -> m s = Ok a s' -> dks s' ++ kidsE (s_rt s') ≡ₚ dks s ++ kidsE (s_rt s).
+Proof. intros H E. specialize (H s). rewrite E in H. destruct H as (-> & -> & _). reflexivity. Qed.
+Lemma rp_get_st : rp (fun _ : st => True) get.
+Proof. intros s. cbn. auto. Qed.
+Lemma rp_rt_find k : rp (fun _ => True) (rt_find k).
+Proof. intros s. unfold rt_find, bind, get, ret. cbn. auto. Qed.
+Lemma rp_map_raw_get variant k : rp (fun _ => True) (map_raw_get variant k).
+Proof.
+  unfold map_raw_get. eapply rp_bind; [|intros _; eapply rp_bind; [apply rp_rt_find|intros x; apply rp_ret]].
+  destruct (variant =? 0); cbn [when]; [apply rp_tick_hash|apply rp_ret].
+Qed.
+Lemma rp_map_serialize : rp (fun _ => True) map_serialize.
+Proof. unfold map_serialize. eapply rp_bind; [apply rp_get_st|intros s0]. eapply rp_bind; [apply rp_rt_iter|intros l; apply rp_ret]. Qed.
+Lemma rp_map_equal other : rp (fun _ => True) (map_equal other).
+Proof.
+  unfold map_equal. eapply rp_bind; [apply rp_get_st|intros s0]. destruct (negb _); [apply rp_ret|].
+  eapply rp_bind; [apply rp_rt_iter|]. intros l.
+  induction l as [|x l IH]; [apply rp_ret|]. eapply rp_bind; [apply rp_tick_hash|intros _].
+  destruct (rt_find_pure other _) as [[im e']|]; [|apply rp_ret]. destruct (_ =? _); [exact IH|apply rp_ret].
+Qed.
+Lemma map_par_iter_star delta splits s l s' :
+  Inv R ES (s_rt s) -> map_par_iter delta splits s = Ok l s' -> dks s' ++ kidsE (s_rt s') ≡ₚ dks s ++ kidsE (s_rt s).
+Proof. intros HI E. rewrite map_par_iter_eq in E. exact (map_iter_star delta s l s' HI E). Qed.
+
+(* par_extend and HashSet::deserialize_in_place *)
+Lemma extend_chunks_conserves : forall chunks s u s',
+  Inv R ES (s_rt s) -> Forall (fun ch => N.of_nat (length ch) <= usize_max) chunks ->
+  iterM (fun ch => map_extend c ch (N.of_nat (length ch))) chunks s = Ok u s' ->
+  Inv R ES (s_rt s') /\ dks s' ++ kidsE (s_rt s') ≡ₚ kids_of (concat chunks) ++ dks s ++ kidsE (s_rt s).
+Proof.
+  induction chunks as [|ch chunks IH]; intros s u s' HI Hall E; cbn [iterM] in E.
+  - unfold ret in E. injection E as _ <-. auto.
+  - unfold bind in E. destruct (map_extend c ch (N.of_nat (length ch)) s) as [u1 s1|p s1|f] eqn:E1; try discriminate.
+    inversion Hall as [|? ? Hch Hrest]; subst.
+    destruct (map_extend_conserves ch _ s u1 s1 HI Hch E1) as (HI1 & Hk1 & _).
+    destruct (IH s1 u s' HI1 Hrest E) as (HI' & Hk). split; [exact HI'|].
+    rewrite Hk. unfold kidsE in *. rewrite Hk1. cbn [concat]. unfold kids_of. rewrite map_app, <- !app_assoc.
+    rewrite (app_assoc (map _ (concat chunks))), (Permutation_app_comm (map _ (concat chunks)) (map _ ch)), <- app_assoc. reflexivity.
+Qed.
+Lemma map_par_extend_star chunks s u s' :
+  Inv R ES (s_rt s) -> N.of_nat (length (concat chunks)) < usize_max -> map_par_extend c chunks s = Ok u s' ->
+  dks s' ++ kidsE (s_rt s') ≡ₚ kids_of (concat chunks) ++ dks s ++ kidsE (s_rt s).
+Proof.
+  intros HI Hlen E. unfold map_par_extend, bind, get in E.
+  set (len := N.of_nat (length (concat chunks))) in *.
+  set (rsv := if rt_len (s_rt s) =? 0 then len else (len + 1) / 2) in E.
+  assert (Hrsv : rsv <= usize_max).
+  { unfold rsv. destruct (_ =? 0); [apply N.lt_le_incl, Hlen|]. clearbody len. apply N.div_le_upper_bound; [discriminate|]. pose proof usize_max_big. lia. }
+  unfold on_unwind in E. destruct (rt_reserve c false rsv s) as [b s1|p s1|f] eqn:Er.
+  2:{ destruct (iterM _ _ s1); discriminate. }
+  2:{ discriminate. }
+  pose proof (rt_reserve_star false rsv s b s1 HI Hrsv Er) as H1.
+  pose proof (rt_reserve_spec c false rsv (fun _ s2 => Inv R ES (s_rt s2)) (fun _ _ => True) s HI Hrsv) as Hs.
+  unfold wp in Hs. rewrite Er in Hs. assert (HI1 : Inv R ES (s_rt s1)) by (apply Hs; [intros s0 (H & _); exact H|auto|auto]).
+  assert (Hall : Forall (fun ch => N.of_nat (length ch) <= usize_max) chunks).
+  { apply Forall_forall. intros ch Hin. apply elem_of_list_In in Hin. apply in_split in Hin as (l1 & l2 & ->).
+    unfold len in Hlen. rewrite concat_app in Hlen. cbn [concat] in Hlen. rewrite !app_length in Hlen. lia. }
+  destruct (extend_chunks_conserves chunks s1 u s' HI1 Hall E) as (_ & Hk). rewrite Hk, H1. reflexivity.
+Qed.
 End Conserve.
